@@ -127,6 +127,19 @@ def verdict {V : Type} (ex : Exports) (c : Call V) : Verdict :=
             | none => .unbound m
             | some f => .run f m
 
+/-- The call is one the handler answers itself. -/
+def handledByHandler {V : Type} (ex : Exports) (c : Call V) : Bool :=
+  isPair c peerPair || (isPair c introspectPair && nodeKnown ex c.path) ||
+    ((exported ex c.path).isSome && isPair c managedPair)
+
+/-- The statement's condition for user code to run: the path is exported, the member exists on
+the addressed (or first matching) interface, the argument signature matches - and the call is
+not one the handler answers itself, and something implements the member. -/
+def Runnable {V : Type} (ex : Exports) (c : Call V) (f : Func) (m : Method) : Prop :=
+  handledByHandler ex c = false ∧
+  ∃ o i, exported ex c.path = some o ∧ addressed o c = some (i, m) ∧ c.sig.getD [] = m.sigIn ∧
+    bound o i.name c.member = some f
+
 /-- The call is dispatched to user code. -/
 def Verdict.runs : Verdict → Bool
   | .run _ _ => true
@@ -154,6 +167,11 @@ def eventsOf {V : Type} (k : Nat) (tr : List (Nat × Event V)) : List (Event V) 
 def expectedInvocation {V : Type} (c : Call V) (f : Func) : Nat × List V × Option (Option Str) :=
   (f.id, c.body, if f.wantsCaller then some c.sender else none)
 
+/-- All the invocations of user code the statement allows for a call. -/
+def expectedInvocations {V : Type} (c : Call V) : Verdict → List (Nat × List V × Option (Option Str))
+  | .run f _ => [expectedInvocation c f]
+  | _ => []
+
 /-- A reply is addressed to the caller and carries the call's serial. -/
 def AddressedTo {V : Type} (c : Call V) (m : Msg V) : Prop :=
   m.replySerial = c.serial ∧ m.dest = c.sender
@@ -178,6 +196,14 @@ def errorName (validErr : Str → Bool) (e : Exc) : Str :=
     | some n => n
     | none => pyExceptionPrefix ++ e.cls
   if validErr n then n else invalidErrorName
+
+/-- The message of the error reply for exception `e`: the exception text, preceded by a notice
+naming the rejected error name when that name is not a valid DBus error name. -/
+def errorText (validErr : Str → Bool) (e : Exc) : Str :=
+  let n := match e.errName with
+    | some n => n
+    | none => pyExceptionPrefix ++ e.cls
+  if validErr n then e.text else pyFormat invalidNameNotice [n] ++ e.text
 
 /-- The values sent for a result under a declared signature with `nret` complete types: a
 sequence stands for the individual return values unless exactly one is declared. -/
